@@ -306,7 +306,7 @@ pub(crate) fn check_memory_ledger() {
         let what = KERNEL.with(|k| {
             k.try_borrow().ok().map(|k| {
                 if h.tag >= PBUF_TAG {
-                    format!("the provided-buffer ring of group {}", h.tag - PBUF_TAG)
+                    format!("the provided-buffer ring of group {} (the ring, or a buffer published in it)", h.tag - PBUF_TAG)
                 } else {
                     k.rings
                         .values()
@@ -321,7 +321,7 @@ pub(crate) fn check_memory_ledger() {
             d.raise(simcore::Violation::new(
                 "freed-in-flight",
                 format!(
-                    "a heap block of {} bytes was freed (or moved) while {} was still pending in the kernel and may read or write {} bytes of it",
+                    "a heap block of {} bytes was freed (or moved) while {} was still registered or pending in the kernel, which may read or write {} bytes of it",
                     h.freed_len,
                     what.unwrap_or_default(),
                     h.watch_len
